@@ -303,7 +303,11 @@ fn run_parent(id: &str, tier: Tier, seed: i64) -> i32 {
             ])
             .stdin(Stdio::null())
             .stdout(Stdio::null())
-            .stderr(Stdio::inherit())
+            .stderr(
+                std::fs::File::create(work.join(format!("{id}-{}-{k}.stderr", tier.name())))
+                    .map(Stdio::from)
+                    .unwrap_or_else(|_| Stdio::null()),
+            )
             .spawn()
             .expect("spawn shard");
         children.push(Child { k, child, out, journal, done: None });
